@@ -10,10 +10,9 @@ import (
 )
 
 // Management commands (rconf, member) in the shapes a careless operator
-// produces.  A lower-case `rconf` is executed locally by the connection
-// handler of the node that receives it; every other spelling, and `member`,
-// goes through the replicated log and is executed by every replica's apply
-// loop.  Their replies are not judged; the oracles are: nodes stay alive,
+// produces.  `rconf`, in any letter case, is executed locally by the connection
+// handler of the node that receives it; `member` goes through the replicated
+// log and is executed by every replica's apply loop.  Their replies are not judged; the oracles are: nodes stay alive,
 // replies arrive, replicas agree, the data history stays linearizable, and a
 // refused command changes no membership.
 
@@ -46,11 +45,8 @@ func mgmtShape(a []B, members int) mgmtInfo {
 	default:
 		return mgmtInfo{}
 	}
-	mi := mgmtInfo{is: true, viaLog: string(a[0]) != "rconf"}
+	mi := mgmtInfo{is: true}
 	suffix := ""
-	if mi.viaLog {
-		suffix = "-via-log"
-	}
 	if len(a) == 1 {
 		mi.class = "rconf-alone" + suffix
 		return mi
@@ -135,7 +131,11 @@ func genMgmt(r *core.Rand, nodes int, allowPhantom bool) []B {
 		bs(mb, "bogus"),
 		bs(mb, "list", "extra"),
 	}
-	if allowPhantom {
+	if allowPhantom && nodes >= 3 {
+		// a well-formed add of a member nobody can reach: the configuration
+		// grows by one voter, so it is only asked for where the real nodes
+		// still form a quorum of the enlarged configuration (3 of 4, 4 of 6)
+		// and the run plans no fault that takes one of them away
 		shapes = append(shapes, bs(rc, "add", "4000000000", "http://127.0.0.1:1"))
 	}
 	return pick(r, shapes)
